@@ -693,6 +693,13 @@ def range_facts(guards, key: str, length: str):
 
     for t, pol in flat_facts(guards):
         if isinstance(t, ast.Compare):
+            # key in range(length)  /  key in range(0, length): for an integer key that is 0 <= key < length (callers use this on the integer paths)
+            if len(t.ops) == 1 and isinstance(t.ops[0], (ast.In, ast.NotIn)) and isinstance(t.comparators[0], ast.Call) and norm(t.comparators[0].func) == "range" \
+                    and not t.comparators[0].keywords and norm(t.left).replace(" ", "") == key.replace(" ", ""):
+                ra = t.comparators[0].args
+                if (len(ra) == 1 or (len(ra) == 2 and norm(ra[0]) == "0")) and norm(ra[-1]).replace(" ", "") == length.replace(" ", "") and (isinstance(t.ops[0], ast.In) == pol):
+                    lower = upper = True
+                continue
             if len(t.ops) == 1:
                 feed(rel(t.left, t.ops[0], t.comparators[0], pol))
             elif pol:
